@@ -1,9 +1,228 @@
 import SasLexer.Spec.Basic
-/-! # C08 — dump-level specification (STUB, being written) -/
+import SasLexer.Numeric
+/-!
+# C08 — numeric literal payloads equal the value written in the source (dump-level specification)
+
+A direct reading of the notations of SAS numeric literals.  `D` = ASCII decimal digit, `H` =
+ASCII hex digit.  The text of a numeric token (`IntegerLiteral`, `FloatLiteral`,
+`FloatExponentLiteral`) *without a numeric error attached* must be one of
+
+* `D+`                                   — decimal integer,
+* `D* . D*` with at least one digit      — decimal fraction,
+* one of the two followed by `[eE][+-]?D+` — exponent notation,
+* `D H* [xX]`                            — hexadecimal integer,
+
+and then type and payload are determined by the text alone:
+
+| text                         | type                   | payload                                   |
+|------------------------------|------------------------|-------------------------------------------|
+| `D+`, value ≤ 2^64-1         | `IntegerLiteral`       | `Integer value`                           |
+| `D+`, value > 2^64-1         | `FloatLiteral`         | `Float (nearest binary64 of value)`       |
+| `D* . D*`                    | `FloatLiteral`         | `Float (nearest binary64 of value)`       |
+| … `[eE][+-]?D+`              | `FloatExponentLiteral` | `Float (nearest binary64 of m·10^e)`      |
+| `D H* [xX]`, value ≤ 2^64-1  | `IntegerLiteral`       | `Integer value`                           |
+
+"nearest binary64" is `ratToF64` (`Numeric.lean`: round to nearest, ties to even, of an exact
+rational); nothing else of `Numeric.lean` is used — the model's `tryParse*` functions play no
+role here.
+
+A *numeric error attached* to token `i` is an error of kind `InvalidNumericLiteral` or
+`UnterminatedHexNumericLiteral` whose `lastTok` is `i`.  Then only the extent of the token is
+specified (clause `error-span`): the token is exactly the malformed literal,
+
+* (ii)  `UnterminatedHexNumericLiteral`: text `D H*` (no `x`), maximal: the next source
+        character is neither `x`/`X` nor a hex digit;
+* (i)   `InvalidNumericLiteral`, decimal: text `mantissa [eE][+-]?` (exponent marker without
+        digits); maximal: the next source character is not a digit, nor a sign when the text
+        ends with the marker;
+* (iii) `InvalidNumericLiteral`, hexadecimal: text `D H+ [xX]` whose value exceeds 2^64-1.
+
+Consequently a token that contains anything else is rejected, e.g. the 18 characters
+`1ffffffffffffffff.` lexed as one token (a hex literal too large for `u64` followed by `.`):
+the `.` is not part of any malformed-literal production.
+
+The rule is the same wherever the token occurs (open code, `%eval(…)`, `%sysevalf(…)`): it
+only looks at the token's text.  Maximal munch of error-free literals is *not* part of this
+property (it is C11's business for macro-free open code); `MacroVarResolve`'s `Integer k`
+payload is C06's row.
+-/
 namespace SasLexer
 namespace Spec
+namespace NumLit
 
-def C08 (_s : List Char) (_d : Dump) : Verdict := ["unimplemented"]
+def u64Max : Nat := 2 ^ 64 - 1
+
+/-- value of a run of decimal digits -/
+def decValue (ds : List Char) : Nat := ds.foldl (fun a c => 10 * a + (c.toNat - '0'.toNat)) 0
+
+def hexDigitValue (c : Char) : Nat :=
+  if isAsciiDigit c then c.toNat - '0'.toNat
+  else if 'a' ≤ c && c ≤ 'f' then c.toNat - 'a'.toNat + 10
+  else c.toNat - 'A'.toNat + 10
+
+/-- value of a run of hex digits -/
+def hexValue (hs : List Char) : Nat := hs.foldl (fun a c => 16 * a + hexDigitValue c) 0
+
+def isExpMarker (c : Char) : Bool := c == 'e' || c == 'E'
+def isSign (c : Char) : Bool := c == '+' || c == '-'
+def isX (c : Char) : Bool := c == 'x' || c == 'X'
+
+/-- `D+ | D* . D*` (≥ 1 digit) at the start of `t`: integer digits, fraction digits, whether
+a dot is present, and the rest of `t` -/
+def mantissa? (t : List Char) : Option (List Char × List Char × Bool × List Char) :=
+  let ip := t.takeWhile isAsciiDigit
+  match t.dropWhile isAsciiDigit with
+  | '.' :: r =>
+    let fp := r.takeWhile isAsciiDigit
+    if ip.isEmpty && fp.isEmpty then none else some (ip, fp, true, r.dropWhile isAsciiDigit)
+  | r => if ip.isEmpty then none else some (ip, [], false, r)
+
+/-- a well-formed numeric literal, read off its text -/
+inductive Notation where
+  /-- `D+` -/
+  | int (ds : List Char)
+  /-- `D* . D*` -/
+  | frac (ip fp : List Char)
+  /-- mantissa `[eE] [+-]? D+` -/
+  | exp (ip fp : List Char) (neg : Bool) (ed : List Char)
+  /-- `D H* [xX]`; `hs` = all hex digits including the first -/
+  | hex (hs : List Char)
+
+/-- `D H*`: the digits of a hex literal without its `x` -/
+def isHexDigits (t : List Char) : Bool :=
+  (match t with | c :: _ => isAsciiDigit c | [] => false) && t.all isAsciiHexDigit
+
+def notation? (t : List Char) : Option Notation :=
+  match t.reverse with
+  | [] => none
+  | l :: r =>
+    if isX l then (if isHexDigits r.reverse then some (.hex r.reverse) else none)
+    else
+      match mantissa? t with
+      | none => none
+      | some (ip, _, false, []) => some (.int ip)
+      | some (ip, fp, true, []) => some (.frac ip fp)
+      | some (ip, fp, _, m :: e) =>
+        if !isExpMarker m then none
+        else
+          let (neg, ed) := match e with
+            | '+' :: ed => (false, ed)
+            | '-' :: ed => (true, ed)
+            | ed => (false, ed)
+          if !ed.isEmpty && ed.all isAsciiDigit then some (.exp ip fp neg ed) else none
+
+/-- nearest binary64 of `m · 10^x` (`m` written with `nd` digits).  Far outside the range of
+binary64 the power is not computed: for `m ≥ 1`, `x > 400` gives a value `≥ 10^400` (rounds to
++∞), and `x + nd < -400` a value `< 10^-400` (rounds to 0). -/
+def nearestF64 (m nd : Nat) (x : Int) : UInt64 :=
+  if m = 0 then 0
+  else if x > 400 then 0x7FF0000000000000
+  else if x + nd < -400 then 0
+  else if x ≥ 0 then ratToF64 (m * 10 ^ x.toNat) 1
+  else ratToF64 m (10 ^ (-x).toNat)
+
+/-- the type and payload the notation denotes (`none`: a hex literal that does not fit `u64`
+has no value) -/
+def Notation.denotes : Notation → Option (TokenType × Payload)
+  | .int ds =>
+    let v := decValue ds
+    if v ≤ u64Max then some (.IntegerLiteral, .int v) else some (.FloatLiteral, .float (ratToF64 v 1))
+  | .frac ip fp =>
+    some (.FloatLiteral, .float (nearestF64 (decValue (ip ++ fp)) (ip ++ fp).length (-(fp.length : Int))))
+  | .exp ip fp neg ed =>
+    let e : Int := if neg then -(decValue ed : Int) else (decValue ed : Int)
+    some (.FloatExponentLiteral,
+      .float (nearestF64 (decValue (ip ++ fp)) (ip ++ fp).length (e - (fp.length : Int))))
+  | .hex hs =>
+    let v := hexValue hs
+    if v ≤ u64Max then some (.IntegerLiteral, .int v) else none
+
+/-- `mantissa [eE] [+-]?`: an exponent marker without digits; returns whether a sign is present -/
+def emptyExponent? (t : List Char) : Option Bool :=
+  match mantissa? t with
+  | some (_, _, _, [m]) => if isExpMarker m then some false else none
+  | some (_, _, _, [m, sg]) => if isExpMarker m && isSign sg then some true else none
+  | _ => none
+
+def isNumericType (ty : TokenType) : Bool :=
+  ty == .IntegerLiteral || ty == .FloatLiteral || ty == .FloatExponentLiteral
+
+/-- one numeric token: index, token, raw text, the source character that follows it -/
+structure Item where
+  idx : Nat
+  tok : TokInfo
+  text : Option (List Char)
+  next : Option Char
+
+/-- the numeric tokens of a dump with their raw text (`text = none` if the offsets are not
+valid slice bounds) -/
+def items (s : List Char) (toks : List TokInfo) : List Item :=
+  let n := utf8Len s
+  let rec go (i : Nat) : List TokInfo → List Item
+    | [] => []
+    | t :: r =>
+      let e := match r with | u :: _ => u.byte | [] => n
+      let rest := go (i + 1) r
+      if isNumericType t.ty then
+        ⟨i, t, Lexer.sliceBytes? s t.byte e, ((Lexer.sliceBytes? s e n).getD []).head?⟩ :: rest
+      else rest
+  go 0 toks
+
+def hasErr (d : Dump) (i : Nat) (k : ErrorKind) : Bool :=
+  d.errs.any fun e => e.kind == k && e.lastTok == some i
+
+/-- extent of a token that has a numeric error attached -/
+def errorSpanOk (text : List Char) (next : Option Char) (invalid unterminated : Bool) : Bool :=
+  if unterminated then
+    -- (ii) `D H*`, maximal, the `x` is missing (a too large value may be reported in addition)
+    isHexDigits text && !(match next with | some c => isX c || isAsciiHexDigit c | none => false)
+  else if invalid then
+    -- (i) exponent marker without digits, maximal
+    (match emptyExponent? text with
+      | some signed =>
+        (match next with
+          | some c => !isAsciiDigit c && (signed || !isSign c)
+          | none => true)
+      | none => false)
+    -- (iii) hex literal too large for `u64`
+    || (match notation? text with
+      | some (.hex hs) => hexValue hs > u64Max
+      | _ => false)
+  else true
+
+end NumLit
+
+open NumLit in
+def C08 (s : List Char) (d : Dump) : Verdict :=
+  let its := items s d.toks
+  let errOf (it : Item) : Bool × Bool :=
+    (hasErr d it.idx .InvalidNumericLiteral, hasErr d it.idx .UnterminatedHexNumericLiteral)
+  /- tokens without a numeric error, with what their text denotes -/
+  let clean := its.filter fun it => errOf it == (false, false)
+  let noteOf (it : Item) : Option Notation := it.text.bind notation?
+  clause "notation" (clean.all fun it => (noteOf it).isSome)
+  ++ clause "type" (clean.all fun it =>
+      match (noteOf it).bind Notation.denotes with
+      | some (ty, _) => it.tok.ty == ty
+      | none => true)
+  ++ clause "integer-value" (clean.all fun it =>
+      match noteOf it with
+      | none => true
+      | some nt =>
+        match nt.denotes with
+        | some (_, .int v) => it.tok.payload == .int v
+        | some _ => true
+        | none => false)         -- hex literal too large for u64, yet no error
+  ++ clause "float-value" (clean.all fun it =>
+      match (noteOf it).bind Notation.denotes with
+      | some (_, .float b) => it.tok.payload == .float b
+      | _ => true)
+  ++ clause "error-span" (its.all fun it =>
+      let (inv, unt) := errOf it
+      !(inv || unt) ||
+        match it.text with
+        | some t => errorSpanOk t it.next inv unt
+        | none => false)
 
 end Spec
 end SasLexer
